@@ -300,3 +300,23 @@ func TestVerifFindingC09WalkOvershootLosesTypedText(t *testing.T) {
 		t.Errorf("back down past the newest entry: buffer %q, want the text being typed %q", got, "typing")
 	}
 }
+
+// C14 ("the text after the cursor is unchanged"): completing with the cursor at the very start of a
+// non-empty line. There is no word before the cursor, so the candidate must simply be inserted there.
+// Before the fix setPrefix clamped the position before the cursor to 0 and then took the character *under*
+// the cursor as the word being completed: "abc def" at 0 with the candidate "apple" became "applebc def".
+func TestVerifFindingC14PrefixAtLineStart(t *testing.T) {
+	rl := NewShell()
+	rl.Completer = func(line []rune, cursor int) Completions {
+		return CompleteValues("apple", "avocado")
+	}
+	rl.init()
+	rl.line.Set([]rune("abc def")...)
+	rl.cursor.Set(0)
+	rl.menuComplete()
+	line, _ := rl.completer.Line()
+	got := string(*line)
+	if got != "appleabc def" && got != "avocadoabc def" {
+		t.Errorf("completion at the start of \"abc def\": %q, want a candidate inserted before the unchanged text", got)
+	}
+}
